@@ -192,6 +192,33 @@ def run(cx):
             ok = ok and ((gt and match('(sub (param cloud_i) 1)', dv) is not None) or (le and match('(param cloud_i)', dv) is not None))
         cx.ob('EXPR', 'ParamHandler::p_index', ok, 'parameter slot = body index, minus one past the static body', where=b.file)
 
+    # ---------------------------------------------------------------- Euler extraction at gimbal lock
+    b = cx.fn('geom3::align3::rotations::to_wpr')
+    if b:
+        from vpa import rangeai as R
+        it = R.analyse(b)
+        rng = [a[0] for a in it.arg_log.get('f64::asin', []) if a and a[0] is not None]
+        ok = (not it.problems) and len(rng) >= 1 and all(lo > -1.0 and hi < 1.0 and abs(lo + hi) < 1e-15 for lo, hi in rng) and len(rng) == len(it.arg_log.get('f64::asin', []))
+        cx.ob('RANGE', 'to_wpr:generic-branch-away-from-lock', ok,
+              'the generic Euler formulas (asin of the pitch sine, atan2 of entries that vanish at lock) are reached only with |sin_y| <= 1 - eps, symmetric about 0: '
+              'both gimbal-lock poles (pitch near +pi/2 and near -pi/2) go to their own closed forms', where=b.file, found=str(rng))
+        SY = '(index (param m) (agg tuple (0 0) (1 2)))'
+        M10, M11 = '(index (param m) (agg tuple (0 1) (1 0)))', '(index (param m) (agg tuple (0 1) (1 1)))'
+        seen = set()
+        for s_, d in cx.rets(b):
+            hi = any(p and match(f'(lt $c {SY})', a) is not None for a, p in cx.guards(b, s_.bb))
+            lo = any(p and match(f'(lt {SY} $c)', a) is not None for a, p in cx.guards(b, s_.bb))
+            if hi and match(f'(agg tuple (0 (call f64::atan2 {M10} {M11})) (1 FRAC_PI_2) (2 0.0))', d) is not None:
+                seen.add('+')
+            elif lo and not hi and match(f'(agg tuple (0 (neg (call f64::atan2 {M10} {M11}))) (1 -1.5707963267948966) (2 0.0))', d) is not None:
+                seen.add('-')
+            elif not lo and not hi and match(f'(agg tuple (0 (call f64::atan2 (neg (index (param m) (agg tuple (0 1) (1 2)))) (index (param m) (agg tuple (0 2) (1 2))))) (1 (call f64::asin {SY})) '
+                                              '(2 (call f64::atan2 (neg (index (param m) (agg tuple (0 0) (1 1)))) (index (param m) (agg tuple (0 0) (1 0))))))', d) is not None:
+                seen.add('g')
+        cx.ob('EXPR', 'to_wpr:branches', seen == {'+', '-', 'g'},
+              'X*Y*Z extraction: sin_y = m02; at the +pole (rx, ry, rz) = (atan2(m10, m11), +pi/2, 0), at the -pole (-atan2(m10, m11), -pi/2, 0), otherwise '
+              '(atan2(-m12, m22), asin(m02), atan2(-m01, m00))', where=b.file, found=str(sorted(seen)))
+
 
 def run_thorough(cx):
     """thorough tier: the generic evaluators this property relies on must fire on their positive fixture twins"""
